@@ -310,9 +310,15 @@ class Peer(threading.Thread):
                 if b.handshake == 'close':
                     return
                 if b.handshake == 'garbage':
+                    # answer the ClientHello with clear text, then stay until the client says QUIT (or leaves)
                     c.sendall(b'this is not a TLS record\r\n')
-                    readline()
-                    return
+                    while True:
+                        line = readline()
+                        if line is None:
+                            return
+                        if line.upper().endswith(b'QUIT'):
+                            c.sendall(b'221 bye\r\n')
+                            return
                 if b.handshake == 'silent':
                     readline()
                     return
@@ -368,7 +374,7 @@ def build_qremote(ctx, name='Qremote'):
     def cc(f):
         rel = os.path.relpath(f, vlib.SRC)
         o = os.path.join(objdir, rel.replace('/', '_') + '.o')
-        extra = ['-DNOSTDERR'] if rel == 'lib/log.c' else []
+        extra = ['-DNOSTDERR'] if rel == 'lib/log.c' and '-DUSESYSLOG' in vlib.BASE_FLAGS else []
         r = vlib.sh(['gcc'] + base + extra + ['-c', f, '-o', o])
         return (o, r.returncode, r.stdout)
     with ThreadPoolExecutor(max_workers=8) as ex:
